@@ -48,7 +48,8 @@ def check(c):
     c.cov["distinct_nontrivial"] += s["nontrivial"]
     c.cov["traces_validated_against_impl"] += s["rt_cases"]
     c.cov["tlc_enumerated_pattern_lists_round_tripped"] = s["rt_cases"]
-    tot = lifelib.run_life(c, [["-mode", "roundtrip", "-n", "400" if thorough else "120"]] * (4 if thorough else 1),
+    tot = lifelib.run_life(c, [["-mode", "roundtrip", "-n", "400" if thorough else "120"]] * (4 if thorough else 1)
+                           + [["-mode", "nearpairs", "-n", "60" if thorough else "16"]],   # constructors agree: New(c) vs New(c') + Reconfigure(&c)
                            "Config() round trip is not a no-op / constructors disagree")
     # T: the VALUE of Config() against NormalForm.tla (what the normal form is, beyond what C06 requires of it): a value that is
     #    not the normal form of the configuration's meaning is model drift; a value that still changes after one round trip is C06
